@@ -889,6 +889,7 @@ func importsFor(ops []Op) string {
 
 func TxSource(ops []Op, naccts int, m *Model) string {
 	scratch := m.Clone()
+	scratch.Ctr.BeginTx()
 	var b strings.Builder
 	b.WriteString(importsFor(ops))
 	b.WriteString("transaction {\n    prepare(")
@@ -910,6 +911,7 @@ func TxSource(ops []Op, naccts int, m *Model) string {
 
 func ScriptSource(ops []Op, naccts int, m *Model) string {
 	scratch := m.Clone()
+	scratch.Ctr.BeginTx()
 	var b strings.Builder
 	b.WriteString(importsFor(ops))
 	b.WriteString("access(all) fun main(): Int {\n")
@@ -929,7 +931,12 @@ func ScriptSource(ops []Op, naccts int, m *Model) string {
 // the model state advances; otherwise it is left untouched.
 func (m *Model) Predict(ops []Op, isScript bool) (*Pred, *Model) {
 	scratch := m.Clone()
+	scratch.Ctr.BeginTx()
 	pr := &Pred{FailOp: -1}
+	if ok, k := scratch.importsResolve(ops); !ok {
+		pr.Fail, pr.FailOp = FChecker, k
+		return pr, m
+	}
 	for k, o := range ops {
 		if f := scratch.Apply(o, pr); f != "" {
 			pr.Fail = f
